@@ -47,6 +47,10 @@ BagEqRows(exp, o) ==
 GrouperOps == {"Aggregate", "QFrames"}
 CallsOK(e, Fr, Gr) ==
   IF e.recv < 0 THEN TRUE
+  ELSE IF e.op = "Apply" /\ ~Fr[e.recv + 1].err THEN
+       LET exp == ApplySem(Fr[e.recv + 1], e.a.instrs, e.a.tbls)
+           rng == ApplyCalls(Fr[e.recv + 1], e.a.instrs, 1, e.a.tbls) IN
+       IsUnspec(exp) \/ e.calls \in {rng[1], rng[2]}
   ELSE IF e.op \in GrouperOps THEN (Gr[e.recv + 1].err => e.calls = 0)
   ELSE (Fr[e.recv + 1].err => e.calls = 0)
 
